@@ -534,6 +534,10 @@ func (e *Effects) loopMods(fv *FnV, nodes []ast.Node) *modSet {
 	tmp := &FuncEffects{Writes: map[string]bool{}, ParamWrites: map[int]bool{}, Globals: map[string]bool{}, Calls: map[string]bool{}, paramObjs: map[types.Object]int{},
 		WriteSites: map[int][]string{}, GlobalSites: map[string][]string{}}
 	markVar := func(x ast.Expr) {
+		// &v handed to a callee that writes through it: v itself is written
+		if u, ok := ast.Unparen(x).(*ast.UnaryExpr); ok && u.Op == token.AND {
+			x = u.X
+		}
 		// a write that goes through a heap pointer changes the heap, not the root variable
 		for y := ast.Unparen(x); ; {
 			var inner ast.Expr
